@@ -162,8 +162,10 @@ func (z *E6) MulBy014(c0, c1, c4 *fp.Element) *E6 {
 	b.MulBy1(c4)
 	d.Add(c1, c4)
 
+	var c0Copy fp.Element // c0 may point into z.B1, which is overwritten next
+	c0Copy.Set(c0)
 	z.B1.Add(&z.B1, &z.B0)
-	z.B1.MulBy01(c0, &d)
+	z.B1.MulBy01(&c0Copy, &d)
 	z.B1.Sub(&z.B1, &a)
 	z.B1.Sub(&z.B1, &b)
 	z.B0.MulByNonResidue(&b)
@@ -184,8 +186,10 @@ func (z *E6) MulBy01(c0, c1 *fp.Element) *E6 {
 	b.MulByNonResidue(&z.B1)
 	d.SetOne().Add(c1, &d)
 
+	var c0Copy fp.Element // c0 may point into z.B1, which is overwritten next
+	c0Copy.Set(c0)
 	z.B1.Add(&z.B1, &z.B0)
-	z.B1.MulBy01(c0, &d)
+	z.B1.MulBy01(&c0Copy, &d)
 	z.B1.Sub(&z.B1, &a)
 	z.B1.Sub(&z.B1, &b)
 	z.B0.MulByNonResidue(&b)
